@@ -12,8 +12,9 @@
     cut point gives the same result (`advanceLoop_append_nonground_prefix`).
   * `F10_witness` : the known finding (vte's `advance_partial_utf8`): "C2 | 85 7A 8D" loses 'z'.
   * `F7_fixed` : "C2 85" and "C2 | 85" now report the same event (the `fix:` commit 19f83fe).
-  The general theorem `advance_append` (all states including the bulk UTF-8 path of `Ground`) is
-  not proved yet; see the registry.
+  The general theorems are in C04b (`advance_append`, `process_append`, `process_chunks`: every cut that leaves no
+  partial character pending) and MiscC04 (`process_chunks_utf8`: any chunking into valid UTF-8 pieces, escape
+  sequences cut anywhere).  F10 needs no invalid byte: "C3 | A9 41 C3 A9" loses the 'A'.
 -/
 import Vt.Spec.Obs
 import Vt.Props.C02
